@@ -2677,7 +2677,11 @@ func (t *Terminal) printInfoImpl() {
 				pos++
 			}
 		} else {
-			pos = util.Max(pos, t.window.Width()-outputLen-util.StringWidth(t.infoPrefix)-1)
+			// Blank out what an earlier, longer text has left in front of the new position
+			move(line, pos, false)
+			newPos := util.Max(pos, t.window.Width()-outputLen-util.StringWidth(t.infoPrefix)-1)
+			t.window.Print(strings.Repeat(" ", newPos-pos))
+			pos = newPos
 			printInfoPrefix()
 		}
 	}
